@@ -87,6 +87,17 @@ class IsoCard:
         return None
 
 
+class ScriptCard:
+    """a card that does not follow any rule: it answers from a list (None = mute), mute when the list is used up"""
+
+    def __init__(self, replies):
+        self.replies = list(replies)
+        self.log, self.bn, self.wtx_sent = [], 0, 0
+
+    def rx(self, blk):
+        return self.replies.pop(0) if self.replies else None
+
+
 class SimLimit(RuntimeError):
     """the code under test did not stop exchanging blocks"""
 
